@@ -2,11 +2,16 @@ package main
 
 import (
 	"fmt"
+	"os"
+	"path/filepath"
 	"sort"
 	"strings"
+	"time"
 
 	"github.com/casbin/casbin/v2"
 	"github.com/casbin/casbin/v2/model"
+	fileadapter "github.com/casbin/casbin/v2/persist/file-adapter"
+	stringadapter "github.com/casbin/casbin/v2/persist/string-adapter"
 	"github.com/casbin/casbin/v2/rbac"
 	defaultrolemanager "github.com/casbin/casbin/v2/rbac/default-role-manager"
 	"github.com/casbin/casbin/v2/util"
@@ -188,6 +193,38 @@ type EOp struct {
 	What   string
 	Args   []string
 	Custom string
+	Text   string
+	Filter *fileadapter.Filter
+	// NilFilter: pass an untyped nil filter
+	NilFilter bool
+}
+
+func filterTok(f *fileadapter.Filter, isNil bool) string {
+	if isNil || f == nil {
+		return "nil"
+	}
+	var parts []string
+	add := func(name string, vs []string) {
+		if vs == nil {
+			return
+		}
+		enc := make([]string, len(vs))
+		for i, v := range vs {
+			enc[i] = proto.Enc(v)
+		}
+		parts = append(parts, name+"="+strings.Join(enc, ","))
+	}
+	add("p", f.P)
+	add("g", f.G)
+	add("g1", f.G1)
+	add("g2", f.G2)
+	add("g3", f.G3)
+	add("g4", f.G4)
+	add("g5", f.G5)
+	if len(parts) == 0 {
+		return "-"
+	}
+	return strings.Join(parts, " ")
 }
 
 func (o EOp) Line() string {
@@ -228,6 +265,12 @@ func (o EOp) Line() string {
 		return o.Kind
 	case "addmf", "adddmf":
 		return o.Kind + " " + o.PType + " " + o.What
+	case "loadtext":
+		return "loadtext " + o.What + " " + proto.Enc(o.Text)
+	case "loadf", "loadif":
+		return o.Kind + " " + filterTok(o.Filter, o.NilFilter)
+	case "savefa":
+		return "savefa"
 	case "setrm":
 		return "setrm " + o.PType
 	case "set":
@@ -248,6 +291,8 @@ func (o EOp) Line() string {
 
 // Sess is a live enforcer under test with its recording adapter and watcher.
 type Sess struct {
+	FA      *fileadapter.FilteredAdapter
+	FAPath  string
 	MS      *MSpec
 	E       *casbin.Enforcer
 	A       *mem.Adapter
@@ -429,6 +474,40 @@ func (s *Sess) Exec(o EOp) (obs string) {
 	case "setmodel":
 		e.SetModel(s.MS.Build())
 		return "#"
+	case "loadtext":
+		if o.What == "file" {
+			path := scratchFile()
+			if err := os.WriteFile(path, []byte(o.Text), 0o644); err != nil {
+				panic(err)
+			}
+			e.SetAdapter(fileadapter.NewAdapter(path))
+		} else {
+			e.SetAdapter(stringadapter.NewAdapter(o.Text))
+		}
+		return okErr(e.LoadPolicy())
+	case "loadf", "loadif":
+		var filter interface{}
+		if !o.NilFilter && o.Filter != nil {
+			filter = o.Filter
+		}
+		var err error
+		if o.Kind == "loadf" {
+			err = e.LoadFilteredPolicy(filter)
+		} else {
+			err = e.LoadIncrementalFilteredPolicy(filter)
+		}
+		f := 0
+		if s.FA.IsFiltered() {
+			f = 1
+		}
+		return fmt.Sprintf("%s F=%d", okErr(err), f)
+	case "savefa":
+		err := e.SavePolicy()
+		f := 0
+		if s.FA.IsFiltered() {
+			f = 1
+		}
+		return fmt.Sprintf("%s F=%d", okErr(err), f)
 	case "set":
 		switch o.Flag {
 		case "autosave":
@@ -479,6 +558,9 @@ func (s *Sess) Exec(o EOp) (obs string) {
 				return "-"
 			}
 			return encLog(s.W.Log)
+		case "fatext":
+			b, _ := os.ReadFile(s.FAPath)
+			return "t:" + proto.Enc(string(b))
 		}
 	case "haslink":
 		rm := e.GetNamedRoleManager(o.PType)
@@ -522,4 +604,36 @@ var matchFns = map[string]rbac.MatchingFunc{
 		defer func() { _ = recover() }()
 		return util.RegexMatch(a, b)
 	},
+}
+
+var scratchDir string
+
+// scratchFile is a per-process temp file (outside /verif and /repo), removed by cleanupScratch.
+func scratchFile() string {
+	if scratchDir == "" {
+		d, err := os.MkdirTemp("", "corr-scratch")
+		if err != nil {
+			panic(err)
+		}
+		scratchDir = d
+	}
+	return filepath.Join(scratchDir, "policy.csv")
+}
+
+func cleanupScratch() {
+	if scratchDir != "" {
+		os.RemoveAll(scratchDir)
+	}
+}
+
+// ExecGuarded runs an op under a watchdog: a call that does not return within the limit is observed as "hang".
+func (s *Sess) ExecGuarded(o EOp, limit time.Duration) string {
+	ch := make(chan string, 1)
+	go func() { ch <- s.Exec(o) }()
+	select {
+	case r := <-ch:
+		return r
+	case <-time.After(limit):
+		return "hang"
+	}
 }
